@@ -4,6 +4,8 @@ package ldap
 
 import (
 	"context"
+	"crypto/tls"
+	"errors"
 	"io"
 	"net"
 	"time"
@@ -203,6 +205,27 @@ func zzH_C12_ldap() {
 	zzAssert(nbind == nb, "every bind attempt produces exactly one authentication event")
 }
 
+var zzTLSStarted int
+
+// model of (*Conn).StartTLS: records that the server began a TLS handshake on the connection
+func zzStubStartTLS(c *Conn, config *tls.Config) error {
+	zzTLSStarted++
+	return errors.New("zz: tls handshake not modelled")
+}
+
+// a connection whose writes fail (the client is already gone)
+type zzDeadConn struct{ zzLConn }
+
+func (c *zzDeadConn) Write(b []byte) (int, error) { return 0, errors.New("write: broken pipe") }
+
+func zzStartTLSReq(id int64) []byte {
+	p := zzEnvelope(id)
+	ext := ber.Encode(ber.ClassApplication, ber.TypeConstructed, AppExtendedRequest, nil, "Extended Request")
+	ext.AppendChild(ber.NewString(ber.ClassContext, ber.TypePrimitive, 0, "1.3.6.1.4.1.1466.20037", "StartTLS OID"))
+	p.AppendChild(ext)
+	return p.Bytes()
+}
+
 // C03/ldap-sequential: an earlier session (which binds successfully and then just
 // drops the connection, or unbinds, or never binds) must not influence what a later
 // session from another address gets on the same service instance.
@@ -212,10 +235,19 @@ func zzH_C03_ldapseq() {
 		DSE: &DSE{SupportedLDAPVersion: []string{"2", "3"}}}}
 	s.setHandlers()
 	s.SetChannel(rec)
+	s.tlsConfig = &tls.Config{}
+	zzTLSStarted = 0
 	nEarlier := zzLen(0, zzParam("N", 2))
 	for i := 0; i < nEarlier; i++ {
 		var stream []byte
-		switch zzLen(0, 2) {
+		kind := zzLen(0, 3)
+		if kind == 3 {
+			// StartTLS request from a client that disappears before the reply can be written
+			dead := &zzDeadConn{zzLConn{in: zzStartTLSReq(1), remote: &net.TCPAddr{IP: net.IPv4(10, 9, 9, byte(10+i)), Port: 40000}, local: &net.TCPAddr{IP: net.IPv4(10, 0, 0, 1), Port: 389}}}
+			s.Handle(context.Background(), dead)
+			continue
+		}
+		switch kind {
 		case 0: // successful bind, then the client just goes away
 			stream = zzBindReq(1, "cn=root", "root")
 		case 1: // successful bind, a gated op, then unbind
@@ -230,9 +262,11 @@ func zzH_C03_ldapseq() {
 		s.Handle(context.Background(), a)
 	}
 	rec.evs = nil
+	zzTLSStarted = 0
 	op := zzGated[zzLen(0, len(zzGated)-1)]
 	b := &zzLConn{in: zzGatedReq(1, op), remote: &net.TCPAddr{IP: net.IPv4(10, 7, 7, 7), Port: 41000}, local: &net.TCPAddr{IP: net.IPv4(10, 0, 0, 1), Port: 389}}
 	s.Handle(context.Background(), b)
+	zzAssert(zzTLSStarted == 0, "the server does not start a TLS handshake the probe session never asked for")
 	zzAssert(len(b.out) == 1, "the probe session gets exactly one reply")
 	if len(b.out) == 1 {
 		_, code, ok := zzResultCode(b.out[0])
